@@ -527,6 +527,85 @@ func runTry(s tryScenario) {
 	}
 }
 
+// a try block followed by another pipeline command in the same surrounding scope (one terminal
+// loop over a fresh scope): the failure of the body stays inside the block also afterwards - the
+// later command runs, and the surrounding scope does not fail
+func runTryThen(s tryScenario) {
+	id := s.String() + " ; then pip:run --name=second --body=ok_later.1 in the same scope"
+	defer func() {
+		if r := recover(); r != nil {
+			add("no-panic", id, fmt.Sprint(r))
+		}
+	}()
+	body := "ok_body.1"
+	if s.Body == "bad" {
+		body = "bad_body.1"
+	}
+	line := "pip:try --name=first --silent=false --body=" + body
+	for _, h := range []struct{ name, kind string }{{"success", s.Success}, {"fail", s.Fail}, {"finally", s.Finally}} {
+		if h.kind != "" {
+			line += fmt.Sprintf(" --%s=%s_%s.1", h.name, h.kind, h.name)
+		}
+	}
+	script := line + "\npip:run --name=second --silent=false --body=ok_later.1\n"
+	mapp, _, err := newApp(nil)
+	if err != nil {
+		add("setup", id, err.Error())
+		return
+	}
+	registerProbes(mapp.Terminal(), []string{"body.1", "later.1", "success.1", "fail.1", "finally.1"})
+	var deps struct {
+		Terminal termservices.Terminal `dependency:"TerminalService"`
+	}
+	if err = mapp.DependencyProvider().InjectTo(&deps); err != nil {
+		add("setup", id, err.Error())
+		return
+	}
+	lg := &evlog{gate: make(chan struct{})}
+	close(lg.gate)
+	surrounding := scope.New(scope.Params{})
+	surrounding.SetValue(logKey, lg)
+	cwd, _ := memfs.NewFilespace()
+	buf := bufferio.NewBuffer()
+	ctx := gio.NewIOContext(surrounding, gio.NewIO(gio.IOParams{
+		In:  gio.NewInput(strings.NewReader(script)),
+		Out: bufferio.NewBufferOutput(buf),
+		Err: bufferio.NewBufferOutput(buf),
+		CWD: cwd,
+	}))
+	var scopeErr error
+	done := make(chan struct{})
+	go func() {
+		defer func() {
+			if r := recover(); r != nil {
+				add("no-panic", id, fmt.Sprint(r))
+			}
+			close(done)
+		}()
+		deps.Terminal.RunLoop(ctx, "")
+		scopeErr = surrounding.Wait()
+	}()
+	select {
+	case <-done:
+	case <-time.After(20 * time.Second):
+		add("try-finishes", id, "the terminal loop did not finish within 20 s; events "+strings.Join(lg.snapshot(), " "))
+		return
+	}
+	events := lg.snapshot()
+	n := 0
+	for _, e := range events {
+		if e == "later.1" {
+			n++
+		}
+	}
+	if n != 1 {
+		add("body-failure-stays-inside-the-block", id, fmt.Sprintf("the command after the block ran %d times; events %v; scope error %v", n, events, scopeErr))
+	}
+	if scopeErr != nil {
+		add("only-a-failing-handler-fails-the-surrounding-scope", id, fmt.Sprintf("no handler failed, the surrounding scope reports %v; events %v", scopeErr, events))
+	}
+}
+
 // full: enough failing inputs are recorded; the rest of the space is skipped (and the run is no
 // longer exhaustive), so a tree on which every scenario hangs does not take hours
 func full() bool {
@@ -621,6 +700,23 @@ func main() {
 						wg.Add(1)
 						sem <- struct{}{}
 						go func() { defer wg.Done(); defer func() { <-sem }(); runTry(s) }()
+					}
+				}
+			}
+		}
+		for _, b := range []string{"ok", "bad"} {
+			for _, su := range []string{"", "ok"} {
+				for _, fa := range []string{"", "ok"} {
+					for _, fi := range []string{"", "ok"} {
+						s := tryScenario{b, su, fa, fi}
+						if full() {
+							res.Exhausted = false
+							continue
+						}
+						res.Cases++
+						wg.Add(1)
+						sem <- struct{}{}
+						go func() { defer wg.Done(); defer func() { <-sem }(); runTryThen(s) }()
 					}
 				}
 			}
